@@ -893,7 +893,8 @@ int EGLPNUM_TYPENAME_ILLsimplex (
 		CHECKRVALG (rval, CLEANUP);
 		if (it.algorithm == DUAL_SIMPLEX)
 		{
-			if (B->rownorms)
+			if (B->rownorms &&
+					__EGlpNumArraySize (B->rownorms) >= (size_t) lp->nrows)
 			{
 				rval = EGLPNUM_TYPENAME_ILLprice_load_rownorms (lp, B->rownorms, pinf);
 				CHECKRVALG (rval, CLEANUP);
